@@ -4,7 +4,7 @@
     // C06 — perform_super / load_blocks / include / import are sequences of eval_impl steps over State (G-VM): no
     // function-level contract reaches them. BOUNDED stand-in executed natively against an independent reference
     // model of block inheritance.
-//# ob name=inherit_box_native role=native_bounded fn=vm::{load_blocks,perform_super,call_block,perform_include} kind=bounded bound="chains of 1..=4 templates x 2 block names x per-template choice {absent, override, super-before, super-after, double super} (exhaustive: 5^(2n) assignments for n <= 3, sampled stride for n = 4) with stray text outside blocks in extending templates; plus fixed scenarios: include/import placement, include list fallback, missing template, inheritance cycle, include cycle, double extends, conditional extends, block-less partial extending a layout, super() at top of chain, render_block after a failing super()" stmt="a block renders its most-derived definition, each super() renders the next definition up the chain, untouched blocks fall through, text outside blocks in an extending template is discarded; includes render with the includer's variables, imports expose macros and top-level variables; cycles, double extends and missing templates are errors, never hangs or truncated success"
+//# ob name=inherit_box_native role=native_bounded fn=vm::{load_blocks,perform_super,call_block,perform_include} kind=bounded bound="chains of 1..=4 templates x 2 block names x per-template choice {absent, override, super-before, super-after, double super} (exhaustive: 5^(2n) assignments for n <= 3, sampled stride for n = 4) with stray text outside blocks in extending templates; plus fixed scenarios: include/import placement, include list fallback, missing template, inheritance cycle, include cycle, double extends, conditional extends, block-less partial extending a layout, super() at top of chain, render_block after a failing super(); a block nested in (or invoked through self.name() from) another block's base definition with every override / super() choice in two descendants (162 chains)" stmt="a block renders its most-derived definition, each super() renders the next definition up the chain, untouched blocks fall through, text outside blocks in an extending template is discarded; includes render with the includer's variables, imports expose macros and top-level variables; cycles, double extends and missing templates are errors, never hangs or truncated success"
     fn inherit_box_native() {
         use crate::{Environment, ErrorKind};
         // ---------- reference model
@@ -159,6 +159,44 @@
         assert!(again == "C(M(B))", "after a failed nested super() the block renders {again:?}");
         let third = cap.with_state_mut(|state| state.render_block("a")).unwrap();
         assert!(third == "C(M(B))");
+        // ---------- blocks entered from inside another block's parent definition: the base's block `o` contains block `i`
+        // (nested, or invoked as self.i()); the two descendants override `o` and / or `i` with or without super(). Each
+        // block name has its own chain: where `o` stands in its chain must not influence which definition of `i` a super()
+        // inside `i` reaches.
+        {
+            // choice per (level 1..=2, block): 0 absent, 1 override, 2 override with super()
+            fn ev(defs: &[Vec<String>; 2], which: usize, idx: usize) -> String {
+                let body = &defs[which][idx];
+                let mut out = String::new();
+                for ch in body.chars() {
+                    match ch { '^' => out.push_str(&ev(defs, which, idx + 1)), '@' => out.push_str(&ev(defs, 1, 0)), c => out.push(c) }
+                }
+                out
+            }
+            let mut nested_n = 0;
+            for via_self in [false, true] { for o1 in 0..3u8 { for i1 in 0..3u8 { for o2 in 0..3u8 { for i2 in 0..3u8 {
+                let mut env = Environment::new();
+                let base = if via_self { "[{% block o %}O0({{ self.i() }}){% endblock %}]{% block i %}I0{% endblock %}".to_string() }
+                           else { "[{% block o %}O0({% block i %}I0{% endblock %}){% endblock %}]".to_string() };
+                env.add_template_owned("nb0", base).unwrap();
+                let blk = |name: &str, tag: &str, c: u8| match c { 0 => String::new(), 1 => format!("{{% block {name} %}}{tag}{{% endblock %}}"), _ => format!("{{% block {name} %}}{tag}<{{{{ super() }}}}>{{% endblock %}}") };
+                env.add_template_owned("nb1", format!("{{% extends 'nb0' %}}{}{}", blk("o", "O1", o1), blk("i", "I1", i1))).unwrap();
+                env.add_template_owned("nb2", format!("{{% extends 'nb1' %}}{}{}", blk("i", "I2", i2), blk("o", "O2", o2))).unwrap();
+                // definitions child-first; '^' = super(), '@' = the inner block
+                let d = |tag: &str, c: u8| match c { 0 => None, 1 => Some(tag.to_string()), _ => Some(format!("{tag}<^>")) };
+                let mut defs: [Vec<String>; 2] = [Vec::new(), Vec::new()];
+                for (c, tag) in [(o2, "O2"), (o1, "O1")] { if let Some(x) = d(tag, c) { defs[0].push(x); } }
+                defs[0].push("O0(@)".to_string());
+                for (c, tag) in [(i2, "I2"), (i1, "I1")] { if let Some(x) = d(tag, c) { defs[1].push(x); } }
+                defs[1].push("I0".to_string());
+                let mut want = format!("[{}]", ev(&defs, 0, 0));
+                if via_self { want.push_str(&ev(&defs, 1, 0)); }
+                let got = env.get_template("nb2").unwrap().render(()).unwrap_or_else(|e| format!("ERROR {e}"));
+                assert!(got == want, "nested blocks (inner via self: {via_self}; o1={o1} i1={i1} o2={o2} i2={i2}): rendered {got:?}, the chains give {want:?}");
+                nested_n += 1;
+            }}}}}
+            assert!(nested_n == 162);
+        }
     }
 
 //# ob name=compose_targets_native role=native_bounded fn=vm::{perform_include,load_blocks} kind=bounded bound="include targets in 9 value forms {string literal, string variable, list literal, list variable, tuple, lazy concatenation, reversed list, host-provided lazy iterable, list filter result} x candidate lists {all missing, first / middle / last existing, two existing} x {ignore missing or not}; inheritance cycles of length 1..=3 with every choice of which members define blocks, entered from a member or from a child with / without blocks, plus acyclic block-less chains; a watchdog turns a render that does not return within 20 s into a failure" stmt="an include renders the first existing template of its candidate list whatever kind of sequence holds the names, and fails with template-not-found (or renders nothing under ignore missing) when none exists; every inheritance cycle is an error rather than a hang, whichever of its members define blocks"
